@@ -137,9 +137,11 @@ package object
 //@ guarded goTypeRegistry goTypeMutex
 
 //@ func NewTypeConverter
-//@ props C09
+//@ props C09 C08
 //@ requires !ghost("lock.w", bool, goTypeMutex) && !ghost("lock.r", bool, goTypeMutex) && goTypeMutex != nil
 //@ ensures[C09.released] !ghost("lock.w", bool, goTypeMutex)
+//@ ghostensures err == nil ==> result0 != nil && ref(result0) != nil && uf("conv.for", bool, result0, typ)
+//@ ensures[C08.create.err] err != nil ==> result0 == nil
 
 //@ func SetTypeConverter
 //@ props C09
